@@ -397,3 +397,26 @@ LEVELS = {
 
 _NOT_YET = "not yet built in this session (the design is in DESIGN.md section 5); no check is registered, nothing is claimed"
 NOT_APPLICABLE = {("C%02d" % i): _NOT_YET for i in range(1, 21)}
+
+# streams added after the seeded-change rounds (inserted before the "distinct ..." sentence of each rule text)
+_ADDED_STREAMS = {
+    "C01": "(C) strings whose BYTE length sits at a bound while they have fewer characters; (D) characters of four bytes (emoji, CJK extension B) with bounds at n, n+-1, 3n, 4n.",
+    "C02": "Messages may end in blanks or semicolons (bytes of the separator). A repeated-type stream validates the same synthesised type three times (with a per-call override, plainly, again); cross-field groups (four-member botheq, groups over slices / maps / structs / pointers, int-keyed maps of objects) are included; pointers whose outer level is set and an inner level nil.",
+    "C03": "Also: non-nil pointers to zero scalars (required is satisfied), URL keys that occur several times with the empty / invalid occurrence first or last.",
+    "C05": "Directed catalogues: number-like strings (signs, exponents, blanks, radix prefixes, full-width digits, > 19 digits) through int / float / ints / phone; phone / e-mail / id-card near-misses; decimal options met by float32 / float64 values incl. tiny and huge magnitudes; file / dir on links, a dangling link, a missing path, trailing slashes; a quoted rule followed by a second rule on the same value.",
+    "C06": "Keys that end with another key (xvalid / valid) carrying the same value; files that start with a byte order mark; empty declaration groups.",
+    "C09": "The same with keys / values of other dynamic types (strings and slices; the nil key, pointers, structs holding a slice), exhaustive at length 3 and in the random runs; a panic inside the cache is recorded.",
+    "C10": "Scripted races: a full cache, one call per goroutine released together (Load / Store / Delete / Len of resident and new keys, capacity 0 included), then Len, Dump and a Load of every key; histories of equal shape are emitted once; every run has a deadlock watchdog.",
+    "C11": "The call mix includes re rules with a pattern no earlier call used and rejected calls (nil input) that carry a rule set.",
+    "C12": "The call mix includes re rules with a pattern no earlier call used and rejected calls (nil / typed-nil input) that carry a rule set.",
+    "C13": "A directed catalogue puts every seed rule text on a non-empty value through each entry point; every whole-string rule meets strings of 63..513 bytes (six fillers); botheq groups over slices / maps / funcs / structs / interfaces; maps keyed by a named string type.",
+    "C15": "A directed grid crosses every rule with one-byte / one-character messages, messages with quotes, messages that quote the labels, '=', ';' and a trailing blank.",
+    "C16": "Also: per-call functions named like the extension rules required / exist; a self-referential type (pointer to and slice of itself) as outermost object; two different types that print the same name (packages orders/pb and users/pb).",
+    "C17": "WGS2 adds an int-keyed map of objects, a four-member botheq group with the mismatch anywhere, botheq over slices / maps / structs / pointers; URL members of blanks only or differing by a trailing blank.",
+    "C18": "Specimens include strings with blanks, '+', '%', a tab, four-byte characters and a float32 that is no dyadic fraction; the zero value of every specimen goes through all presentations (nothing may be reported); the struct presentation is sometimes primed by a call with another rule for the same field.",
+    "C19": "Generated files may start with a byte order mark and contain empty declaration groups.",
+}
+for _p, _t in _ADDED_STREAMS.items():
+    _r = PROPS[_p]["rule"]
+    _i = _r.rfind("A case is") if "A case is" in _r else _r.rfind(" distinct")
+    PROPS[_p]["rule"] = (_r[:_i].rstrip() + " " + _t + " " + _r[_i:].lstrip()) if _i >= 0 else _r + " " + _t
